@@ -829,6 +829,10 @@ func (t *Topic) handleLeaveRequest(msg *ClientComMessage, sess *Session) {
 				sess.queueOut(NoErrReply(msg, now))
 			}
 		}
+	} else if msg.init {
+		// The session is not attached any more: it was evicted from the topic (e.g. dropped as
+		// too slow) while its {leave} was in transit. The request still has to be answered.
+		sess.queueOut(InfoNotJoined(msg.Id, msg.Original, now))
 	}
 }
 
